@@ -4,7 +4,7 @@ import ast
 
 import z3
 
-from .engine import (VNum, VSeq, VTuple, VOpaque, VConst, VNone, VStr, VObj, fresh, INT, REAL, BOOL, Unsupported,
+from .engine import (VNum, VSeq, VTuple, VOpaque, VConst, VNone, VStr, VObj, VKeyed, VIter, fresh, INT, REAL, BOOL, Unsupported,
                      sort_of_kind, to_real, wrap)
 
 
@@ -113,3 +113,30 @@ def np_linspace(eng, st, args, kwargs, e):
     st.assume(z3.ForAll([k], z3.Implies(z3.And(0 <= k, k < n), z3.Select(arr, k) * div == a * div + to_real(k) * (b - a)),
                         patterns=[z3.Select(arr, k)]))
     return VSeq(arr, n, "real")
+
+
+def keyed_items(count_expr):
+    """<dict>.items() of an unmodelled insertion-ordered dict with `count_expr` entries: the k-th iteration yields the key
+    (identified with its insertion index k) and an opaque value."""
+    import ast as _ast
+
+    def f(eng, st, args, kwargs, e):
+        n = eng.eval(_ast.parse(count_expr, mode="eval").body, st)
+        return VIter("keyed-items", [n])
+    return f
+
+
+def keyed_pair(eng, st, args, kwargs, e):
+    """self._process_var_update(var, update) -> (lhs, rhs): two unmodelled values that belong to entry `var`."""
+    k = eng.num(args[1])
+    return VTuple([VKeyed("lhs", k), VKeyed("rhs", k)])
+
+
+def np_isclose(eng, st, args, kwargs, e):
+    """numpy.isclose(a, b, rtol=1e-5, atol=1e-8) for scalars: |a - b| <= atol + rtol*|b| (documented formula)."""
+    a, b = to_real(eng.num(args[0])), to_real(eng.num(args[1]))
+    rtol = to_real(eng.num(kwargs["rtol"])) if "rtol" in kwargs else z3.RealVal("1/100000")
+    atol = to_real(eng.num(kwargs["atol"])) if "atol" in kwargs else z3.RealVal("1/100000000")
+    absd = z3.If(a - b >= 0, a - b, b - a)
+    absb = z3.If(b >= 0, b, -b)
+    return VNum(absd <= atol + rtol * absb)
